@@ -56,6 +56,7 @@ RULE = ('direct: random pin (FuelModel metal fuel: pu/zr/porosity per zone; '
         'call with fuel centre >= 20 K above coolant (direct/sweep) or a '
         'full weight matrix probed (weights); distinct by (model, zones, '
         'annular, gap, material law kinds, rings)')
+RULE += (' Later rounds added: user clad-film parameters with unequal exponents; the pin record of every assembly re-read at the end of each reactor step.')
 DECIDING = ['ordering', 'zero_power_equal', 'film_drop', 'clad_drop',
             'clad_mid_drop', 'gap_drop', 'fuel_centre_reference',
             'fuel_shell_conduction', 'monotone_in_power',
